@@ -178,33 +178,37 @@ def densify(rep, F):
 
 
 def densify_containers(rep, F):
-    rep.rule("R15.4", "Densifiable: Polygon = Polygon::new(densify(exterior), interiors.map(densify)); MultiLineString / MultiPolygon = every member densified; Rect / Triangle = densify(to_polygon()); one path each, same metric space and bound")
-    want = {
-        "polygon::Polygon<F>": r"^new\(densify\(exterior\(a1\), a2, a3\), collect\(map\(iter\(interiors\(a1\)\), closure\[a2, a3\]\)\)\)$",
-        "multi_line_string::MultiLineString<F>": r"^new\(collect\(map\(iter\(a1\), closure\[a2, a3\]\)\)\)$",
-        "multi_polygon::MultiPolygon<F>": r"^new\(collect\(map\(iter\(a1\), closure\[a2, a3\]\)\)\)$",
-        "rect::Rect<F>": r"^densify\(to_polygon\(a1\), a2, a3\)$",
-        "triangle::Triangle<F>": r"^densify\(to_polygon\(a1\), a2, a3\)$",
+    """R15.4 on containers of concrete size (exact unrolling; struct literals and `new` constructors are the same thing for Multi*): the result
+    is built from densify(part, same metric, same bound) of every part, in order."""
+    rep.rule("R15.4", "Densifiable (Polygon with 2 holes, Multi* of 2 members, exact unrolling): the result is the same container over densify(part, metric, bound) of every part in order; Rect / Triangle = densify(to_polygon())")
+    PG, LS = GT + "polygon::Polygon", GT + "line_string::LineString"
+    part = lambda n: ("field", ("deref", ("arg", 1)), n)
+    two = ("call", "vec!", (("array", (part("m0"), part("m1"))),))
+    cases = {
+        "polygon::Polygon<F>": (("&", ("adt", PG, "Polygon", (part("ext"), two))),
+                                r"^new\(densify\(a1\.ext, a2, a3\), vec!\(\[densify\(a1\.m0, a2, a3\), densify\(a1\.m1, a2, a3\)\]\)\)$"),
+        "multi_line_string::MultiLineString<F>": (("&", ("adt", GT + "multi_line_string::MultiLineString", "MultiLineString", (two,))),
+                                                  r"^(new|MultiLineString::MultiLineString)\(vec!\(\[densify\(a1\.m0, a2, a3\), densify\(a1\.m1, a2, a3\)\]\)\)$"),
+        "multi_polygon::MultiPolygon<F>": (("&", ("adt", GT + "multi_polygon::MultiPolygon", "MultiPolygon", (two,))),
+                                           r"^(new|MultiPolygon::MultiPolygon)\(vec!\(\[densify\(a1\.m0, a2, a3\), densify\(a1\.m1, a2, a3\)\]\)\)$"),
+        "rect::Rect<F>": (None, r"^densify\(to_polygon\(a1\), a2, a3\)$"),
+        "triangle::Triangle<F>": (None, r"^densify\(to_polygon\(a1\), a2, a3\)$"),
     }
     n = 0
-    for ty, pat in want.items():
+    for ty, (val, pat) in cases.items():
         try:
             fn = F.one(r"^<%s%s as geo::algorithm::line_measures::densify::Densifiable<F>>::densify$" % (re.escape(GT), re.escape(ty)), crates=("geo",))
-            ps = [p for p in opaque(F, loop_bound=1).run(fn) if p.kind == "ret"]
+            ex = Symex(F, inline_crates=("geo", "geo_types"), no_inline=[r"Densifiable<F>>::densify$", r"Polygon::<T>::new$", r"::to_polygon$", r"MultiLineString::<T>::new$", r"MultiPolygon::<T>::new$"],
+                       loop_bound=6, concrete_iters=True)
+            ps = [p for p in ex.run(fn, args=[val, ("arg", 2), ("arg", 3)] if val is not None else None) if p.kind != "cut"]
         except (KeyError, Unanalysable) as e:
             rep.bad("R15.4", ty + ":anchor", str(e))
             continue
         n += 1
-        rets = [bare(p.ret) for p in ps]
-        cl_ok = True
-        for g in F.closures_of(fn):
-            qs = [bare(q.ret) for q in opaque(F).run(g) if q.kind == "ret"]
-            if qs != ["densify(a2, a1.0, a1.1)"]:
-                cl_ok = False
-        if len(ps) == 1 and re.match(pat, rets[0]) and cl_ok:
+        rets = sorted({bare(p.ret) if p.kind == "ret" else p.kind for p in ps})
+        if len(rets) == 1 and re.match(pat, rets[0]):
             rep.ok("R15.4", ty.split("::")[-1])
         else:
-            extra = [show_pc(p.pc)[:100] + " -> " + bare(p.ret)[:80] for p in ps if not re.match(pat, bare(p.ret))]
-            rep.bad("R15.4", ty.split("::")[-1], "%s::densify has %d result path(s); not every part is densified on %s: a part that is skipped keeps segments longer than the bound" % (
-                ty.split("::")[-1], len(ps), extra[:2] or "a member closure"), where=fn.loc())
+            rep.bad("R15.4", ty.split("::")[-1], "%s::densify gives %s; not every part is densified (with the same metric and bound, in order) on every path: a part that is skipped keeps segments "
+                    "longer than the bound" % (ty.split("::")[-1], [r_[:160] for r_ in rets][:2]), where=fn.loc())
     rep.floor("R15.4", "container impls", n, 5)
